@@ -114,6 +114,9 @@ func runC18(r *simkit.Run) {
 		}()
 		return srv.VerifRouter(), &nTrig, &nShut
 	}
+	// a process may host services of both modes (tests, tools): whatever another instance was
+	// configured with must not leak into this one
+	_ = kprapi.NewHTTPService(nil, c18cfg{write: !write}, nil).VerifRouter()
 	router, nTrigP, nShutP := newServer()
 	nTrig, nShut := nTrigP, nShutP
 	defer close(stop)
